@@ -48,6 +48,98 @@ class _Normalise(ast.NodeTransformer):
         return node
 
 
+def _inline_helpers(node, globs, has_rule, depth=3):
+    """statement-level calls `helper(a, b)` of a plain module-level Python FUNCTION (resolved in the globals of the function
+    being translated: a helper extracted from, or shared by, several methods) for which the vocabulary has no rule are
+    replaced by the helper's body, the parameters substituted by the argument expressions.  Sound because Python passes
+    references and the conditions below are checked: the helper is a procedure (no `return` at all, no yield, nested def,
+    global / nonlocal, try / with / loops), it never rebinds its parameters, every argument is a name or an attribute chain
+    rooted at a name (a pure reference expression, so evaluating it where the parameter is read gives the same object),
+    positional arguments only, same count; the helper's own locals are renamed apart.  Otherwise the call is left alone
+    (and stays untranslatable: fail-safe)."""
+    import inspect
+    import textwrap
+    import types
+
+    def ref_expr(e):
+        while isinstance(e, ast.Attribute):
+            e = e.value
+        return isinstance(e, ast.Name)
+
+    def body_of(fn):
+        try:
+            h = ast.parse(textwrap.dedent(inspect.getsource(fn))).body[0]
+        except (OSError, TypeError, SyntaxError, IndexError):
+            return None
+        if not isinstance(h, ast.FunctionDef) or h.decorator_list:
+            return None
+        a = h.args
+        if a.vararg or a.kwarg or a.kwonlyargs or a.defaults or a.posonlyargs:
+            return None
+        params = [x.arg for x in a.args]
+        for n in ast.walk(h):
+            if isinstance(n, (ast.Return, ast.Yield, ast.YieldFrom, ast.Global, ast.Nonlocal, ast.Try, ast.With, ast.For,
+                              ast.While, ast.Lambda, ast.ClassDef)) or (isinstance(n, ast.FunctionDef) and n is not h):
+                return None
+            if isinstance(n, ast.Name) and isinstance(n.ctx, (ast.Store, ast.Del)) and n.id in params:
+                return None
+        return h, params
+
+    counter = [0]
+
+    def expand(st):
+        if not (isinstance(st, ast.Expr) and isinstance(st.value, ast.Call) and isinstance(st.value.func, ast.Name)):
+            return None
+        call = st.value
+        fn = globs.get(call.func.id)
+        if not isinstance(fn, types.FunctionType) or has_rule(st) or call.keywords:
+            return None
+        if not all(ref_expr(a) for a in call.args):
+            return None
+        got = body_of(fn)
+        if got is None:
+            return None
+        h, params = got
+        if len(params) != len(call.args):
+            return None
+        counter[0] += 1
+        env = dict(zip(params, call.args))
+        locs = {n.id for n in ast.walk(h) if isinstance(n, ast.Name) and isinstance(n.ctx, ast.Store)}
+        tag = "_h%d_" % counter[0]
+
+        class Sub(ast.NodeTransformer):
+            def visit_Name(self, n):
+                if n.id in env and isinstance(n.ctx, ast.Load):
+                    import copy as _c
+                    return ast.copy_location(_c.deepcopy(env[n.id]), n)
+                if n.id in locs:
+                    return ast.copy_location(ast.Name(id=tag + n.id, ctx=n.ctx), n)
+                return n
+        body = [b for b in h.body if not (isinstance(b, ast.Expr) and isinstance(b.value, ast.Constant)
+                                          and isinstance(b.value.value, str))]
+        return [Sub().visit(b) for b in body] or [ast.Pass()]
+
+    def do_block(stmts):
+        out = []
+        for st in stmts:
+            rep = expand(st)
+            if rep is not None:
+                out.extend(rep)
+                continue
+            if isinstance(st, ast.If):
+                st.body = do_block(st.body)
+                st.orelse = do_block(st.orelse)
+            out.append(st)
+        return out
+
+    for _ in range(depth):
+        before = counter[0]
+        node.body = do_block(node.body)
+        if counter[0] == before:
+            break
+    return node
+
+
 def _inline_self_aliases(node):
     """`x = self.attr` (a bare reference to an attribute of the receiver, no copy) followed by uses of `x`: the local is
     an ALIAS of the attribute — reads and in-place writes through it are reads and writes of `self.attr`.  The alias is
@@ -174,9 +266,22 @@ class T5(P.Translator2W):
     """Translator2W + float constants as exact rationals (generic; a rule cannot do it because `1 == 1.0 == True` for
     the structural matcher)"""
 
+    _globals = None
+
+    def function(self, fn, arg_names, ind=2, allow_unused=()):
+        self._globals = getattr(fn, "__globals__", None)
+        return P.Translator2W.function(self, fn, arg_names, ind, allow_unused)
+
+    def _stmt_has_rule(self, st):
+        return (any(P.match(pat, st, {}) for pat, _r, _t in self.r.stmt) or any(P.match(pat, st, {}) for pat in self.r.skip)
+                or any(P.match(pat, st, {}) for pat, _t in self.r.guard))
+
     def function_node(self, node, arg_names, ind=2, allow_unused=()):
         import copy as _copy
-        node = _inline_self_aliases(_Normalise().visit(_copy.deepcopy(node)))
+        node = _copy.deepcopy(node)
+        if self._globals:
+            node = _inline_helpers(node, self._globals, self._stmt_has_rule)
+        node = _inline_self_aliases(_Normalise().visit(node))
         node = _inline_pure_locals(node, self._may_raise_expr)
         ast.fix_missing_locations(node)
         return P.Translator2W.function_node(self, node, arg_names, ind, allow_unused)
@@ -193,6 +298,13 @@ class T5(P.Translator2W):
         return False
 
     def expr(self, node, scope):
+        # `x in (a, b, ...)` / `x not in [a, b, ...]` on a literal tuple / list: the disjunction of equalities it abbreviates
+        if (isinstance(node, ast.Compare) and len(node.ops) == 1 and isinstance(node.ops[0], (ast.In, ast.NotIn))
+                and isinstance(node.comparators[0], (ast.Tuple, ast.List)) and node.comparators[0].elts
+                and not any(P.match(pat, node, {}) for pat, _t, _f in self.r.expr)):
+            x = self.pure(node.left, scope)
+            alts = " || ".join("(%s == %s)" % (x, self.pure(e, scope)) for e in node.comparators[0].elts)
+            return ("(!(%s))" if isinstance(node.ops[0], ast.NotIn) else "(%s)") % alts, ""
         if isinstance(node, ast.Constant) and type(node.value) is float:
             f = Fraction(repr(node.value))
             return ("(%d : Rat)" % f.numerator if f.denominator == 1 else
@@ -747,9 +859,12 @@ def d_items():
         def thunk(c=cls, n=name, a=args, r=rules, u=unused):
             fn = _fn(c, n) if isinstance(c, type) else c
             node, _src = P.source_ast(fn)
+            t = T5D(r)
+            if getattr(fn, "__globals__", None):
+                node = _inline_helpers(node, fn.__globals__, t._stmt_has_rule)
             node = _Guards().visit(_inline_self_aliases(_Normalise().visit(node)))
             ast.fix_missing_locations(node)
-            return T5D(r).function_node(node, a, ind=1, allow_unused=u)
+            return t.function_node(node, a, ind=1, allow_unused=u)
         out.append((sig, thunk, "some Dt.other"))
 
     G = "(g : Nat → Bool) "
